@@ -166,7 +166,7 @@ static std::pair<std::string, std::string> run_limit(const LimitCase &lc, bool *
         Ctx *c = (Ctx *)s->user; if (!tx) return;
         auto B = [](bstr *b) { return b ? std::string((char *)bstr_ptr(b), bstr_len(b)) : std::string("(null)"); };
         if (e.hook == vdrv::H_REQ_COMPLETE) { c->got_req = true; c->line = B(tx->request_line); const char *n = c->kind == 1 ? "x-long" : c->kind == 2 ? "x-fold" : "x-rep"; htp_header_t *h = (htp_header_t *)htp_table_get_c(tx->request_headers, n); if (c->kind >= 1 && c->kind <= 3) c->hv = h ? B(h->value) : "(missing)"; }
-        if (e.hook == vdrv::H_RES_COMPLETE) { c->got_res = true; if (c->kind == 5) c->line = B(tx->response_line); const char *n = c->kind == 6 ? "x-long" : "x-fold"; htp_header_t *h = (htp_header_t *)htp_table_get_c(tx->response_headers, n); if (c->kind >= 6) c->hv = h ? B(h->value) : "(missing)"; }
+        if (e.hook == vdrv::H_RES_COMPLETE) { c->got_res = true; if (c->kind == 5) c->line = B(tx->response_line); const char *n = c->kind == 6 ? "x-long" : c->kind == 12 ? "x-rep" : "x-fold"; htp_header_t *h = (htp_header_t *)htp_table_get_c(tx->response_headers, n); if (c->kind >= 6) c->hv = h ? B(h->value) : "(missing)"; }
     };
     bool errored = false;
     const std::string &stream = dir == 0 ? req : res;
@@ -178,6 +178,11 @@ static std::pair<std::string, std::string> run_limit(const LimitCase &lc, bool *
     for (auto &v : r.violations) if (v.rfind("C10:", 0) == 0) return {v.substr(4), "retention monitor: " + v};
     *limit_hit = errored;
     if (lc.kind == 8) { if (ntx_max > (size_t)lc.hard + 1) return {"transactions_over_max_tx_plus_one", std::to_string(ntx_max) + " transactions held with max_tx " + std::to_string(lc.hard)}; if (lc.reps > lc.hard + 1 && !errored) return {"max_tx_not_enforced", std::to_string(lc.reps) + " pipelined requests accepted with max_tx " + std::to_string(lc.hard)}; return {"", ""}; }
+    if (lc.kind == 12 && !errored && ctx.got_res) { // the response side has the same repetition cap
+        size_t merged = 1; for (size_t i = 0; i + 1 < ctx.hv.size(); i++) if (ctx.hv[i] == ',' && ctx.hv[i + 1] == ' ') merged++;
+        size_t cap = 2 + HTP_MAX_HEADERS_REPETITIONS; if (merged > cap) return {"repetition_cap_exceeded:response", std::to_string(merged) + " occurrences of a response header merged"};
+        if (merged != std::min<size_t>((size_t)lc.reps, cap)) return {"silent_truncation:repeated_response_header", std::to_string(merged) + " occurrences merged, expected " + std::to_string(std::min<size_t>((size_t)lc.reps, cap))};
+    }
     if (errored || lc.kind >= 9) return {"", ""};
     // no error reported: nothing may have been silently truncated
     bool done = dir == 0 ? ctx.got_req : ctx.got_res;
@@ -211,7 +216,7 @@ static void limits() {
             int mode = rcx::range(0, 3); long l = mode == 0 ? lc.hard + rcx::range(-40, 40) : mode == 1 ? lc.hard / 2 + rcx::range(-5, 5) : mode == 2 ? lc.hard * 2 + rcx::range(0, 50) : rcx::range(1, 300);
             if (l < 1) l = 1; if (l > 140000) l = 140000; lc.len = (size_t)l;
             if (lc.kind == 2 || lc.kind == 7) { lc.reps = rcx::chance(1, 6) ? rcx::range(20, 60) : rcx::range(1, 5); if (lc.reps > 10 && lc.len < 3000) lc.len = (size_t)rcx::range(3000, 6000); }
-            if (lc.kind == 3 || lc.kind == 12) { lc.reps = rcx::chance(1, 3) ? rcx::range(60, 80) : rcx::range(1, 6); if (lc.len > 300) lc.len = 300; }
+            if (lc.kind == 3 || lc.kind == 12) { lc.reps = rcx::chance(1, 3) ? rcx::range(60, 80) : rcx::range(1, 6); if (lc.len > 300) lc.len = 300; if (lc.kind == 12 && lc.len > 0 && (long)lc.len > lc.hard - 20) lc.len = (size_t)std::max<long>(1, lc.hard - 20); }
             if ((lc.kind == 4 || lc.kind == 9) && lc.len > 20000) lc.len = 20000;
         }
         size_t total = 200 + lc.len * (size_t)std::max(1, lc.reps) + 40 * (size_t)lc.reps; int nc = rcx::range(0, 8); int style = rcx::range(0, 2);
